@@ -344,7 +344,7 @@ import emit_cpp
 CXXFLAGS = ["-g", "-O0", "-fsanitize=address,undefined", "-fno-sanitize-recover=all", "-fno-omit-frame-pointer"]
 
 
-CPP_PROFILE = dict(strs=False)     # slices of strings through C++ are a known finding on libstdc++ (F16); probed separately
+CPP_PROFILE = dict()     # slices of strings are part of the workload since F16 was repaired
 
 
 def run_cpp_program(seed, idx, tag, profile=None, ncalls=40, stds=("c++17", "c++20"), keep=False):
